@@ -785,6 +785,8 @@ def _probes_scan(ctx, E, grid, gname, n):
       ref_v, ref_g = jax.value_and_grad(loss(lambda i, x: jax.lax.scan(body, i, x)), argnums=(0, 1))(init, xs)
       fin = all(np.isfinite(a).all() for a in _leaves(E, ref_g))
       ctx.expect(fin, key + ':finite', 'gradient of the flat scan is not finite', inp)
+      if not fin:
+        return
       for ls in nestings:
         i2 = dict(inp, nested_lengths=list(ls))
         ctx.case((key, tuple(ls), ctx.seed), nontrivial=len(ls) > 1)
@@ -809,8 +811,8 @@ def _probes_scan(ctx, E, grid, gname, n):
   A = J(rng.standard_normal((3, 3)) * 0.5)
 
   def body(c, x):
-    u = jnp.tanh(A @ c['u'] + x['f']) + 0.1 * c['s'] * c['u']
-    s = c['s'] * jnp.cos(x['g']) + jnp.sum(u ** 2)
+    u = jnp.tanh(A @ c['u'] + x['f']) * (1 + 0.1 * jnp.tanh(c['s']))      # bounded for any length
+    s = 0.9 * c['s'] * jnp.cos(x['g']) + jnp.mean(u ** 2)
     return dict(u=u, s=s), (u[0] * s, jnp.sum(u))
   length = 12 if ctx.quick else 24
   init = dict(u=J(rng.standard_normal(3)), s=J(float(rng.uniform(0.5, 1.5))))
@@ -862,10 +864,13 @@ def run(ctx: common.Ctx):
   ctx.lean('DinoProofs.Properties.C08', 'C08.txt',
            extra_files=['DinoProofs/Lemmas/AD.lean', 'Dino/AD.lean', 'Dino/ADDrv.lean'])
   _corr(ctx, E)
-  grid, gname, n = _run_grid(ctx, E)
-  _probes_ops(ctx, E, grid, gname, n)
-  _probes_steps(ctx, E, grid, gname, n)
-  _probes_scan(ctx, E, grid, gname, n)
+  for rep in range(ctx.n(1, 3)):     # one (grid, layer count) per repetition: eager primitives are compiled once each
+    grid, gname, n = _run_grid(ctx, E)
+    ctx.dist[f'probe-grid={gname}'] += 1
+    ctx.dist[f'probe-layers={n}'] += 1
+    _probes_ops(ctx, E, grid, gname, n)
+    _probes_steps(ctx, E, grid, gname, n)
+    _probes_scan(ctx, E, grid, gname, n)
   for name, (val, key) in sorted(ctx.__dict__.get('c08_stats', {}).items()):
     ctx.notes.append(f'measured worst {name}: {val:.3e} at {key}')
   if not ctx.quick:
